@@ -67,6 +67,20 @@ package commonmark
 // assign inlineState.source (structural check).
 // ---------------------------------------------------------------------------
 
+//@ -- The end of the text run being tokenised (C02, C03).  The tokeniser ends plain-text nodes, hard breaks and the
+//@ -- text handed to the leaf scanners at spanEnd(); state.root carries the span of the container whose inline
+//@ -- children are being built, so every such node lies inside its parent exactly when spanEnd() does not pass the
+//@ -- container's end -- also once the cursor has run past the last unparsed node (a raw HTML tag or a link that
+//@ -- ends exactly at the end of the last line of the run).  The precondition is assumption A-C02-1 (the unparsed
+//@ -- nodes of a block are valid spans inside the block's span).
+//@ func (*inlineState).spanEnd
+//@   requires[state] !isnil(state) && !isnil(state.root) && 0 <= state.unparsedPos && 0 <= state.root.span.End
+//@   requires[unparsed] NodesIn(state.unparsed, state.root.span.End)
+//@   ensures[inside] 0 <= result && result <= state.root.span.End
+//@   ensures[current] state.unparsedPos < len(state.unparsed) ==> result == state.unparsed[state.unparsedPos].span.End
+//@   inlined
+//@   serves C02, C03, C04
+
 //@ func (*inlineState).addToRoot
 //@   requires !isnil(state) && !isnil(newNode) && !isnil(state.root) && state.parentMap != nil
 //@   modifies map state.parentMap, state.root.children, state.root.children[len(state.root.children):cap(state.root.children)], alloc
